@@ -11,34 +11,49 @@
 (***************************************************************************)
 EXTENDS Naturals
 
-CONSTANT Base
+CONSTANT
+    \* @type: Int;
+    Base
 
 Word == (0 .. Base - 1) \X (0 .. Base - 1)
+\* @type: <<Int, Int>>;
 Zero == <<0, 0>>
+\* @type: <<Int, Int>>;
 One  == <<0, 1>>
+\* @type: <<Int, Int>>;
 MaxW == <<Base - 1, Base - 1>>
 
+\* @type: (<<Int, Int>>, <<Int, Int>>) => <<Int, Int>>;
 Add(a, b) ==
     LET lo == a[2] + b[2]
     IN  <<(a[1] + b[1] + (lo \div Base)) % Base, lo % Base>>
 
+\* @type: (<<Int, Int>>, <<Int, Int>>) => <<Int, Int>>;
 Sub(a, b) ==
     LET lo == Base + a[2] - b[2]
         br == IF lo < Base THEN 1 ELSE 0
     IN  <<(2 * Base + a[1] - b[1] - br) % Base, lo % Base>>
 
+\* @type: (<<Int, Int>>, <<Int, Int>>) => Bool;
 Lt(a, b) == a[1] < b[1] \/ (a[1] = b[1] /\ a[2] < b[2])
+\* @type: (<<Int, Int>>, <<Int, Int>>) => Bool;
 Le(a, b) == a = b \/ Lt(a, b)
+\* @type: (<<Int, Int>>, <<Int, Int>>) => <<Int, Int>>;
 MinW(a, b) == IF Lt(a, b) THEN a ELSE b
+\* @type: (<<Int, Int>>, <<Int, Int>>) => <<Int, Int>>;
 MaxOf(a, b) == IF Lt(a, b) THEN b ELSE a
 
 \* half of the modulus, Base^2 / 2 (Base is even in every configuration)
+\* @type: <<Int, Int>>;
 Half == <<Base \div 2, 0>>
 
 \* The RTMP reading of "a is later than b": a is 1 .. 2^31-1 ahead of b (mod 2^32)
+\* @type: (<<Int, Int>>, <<Int, Int>>) => <<Int, Int>>;
 Ahead(a, b) == Sub(a, b)                     \* how far a is ahead of b
+\* @type: (<<Int, Int>>, <<Int, Int>>) => Bool;
 Later(a, b) == LET d == Sub(a, b) IN d # Zero /\ Lt(d, Half)
 
 \* small naturals <-> words (n < Base^2 and n within TLC's integer range)
+\* @type: (Int) => <<Int, Int>>;
 FromNat(n) == <<n \div Base, n % Base>>
 =============================================================================
